@@ -9,6 +9,28 @@ ENGINE_NOTE = ("Lean kernel; axioms propext/Classical.choice/Quot.sound; the eng
                "Lean driver and an independent naive least-model oracle; rustc, syn/quote, hash maps (C19), petgraph (validated by validOrder) and the "
                "evaluation of embedded Rust expressions (theorems hold for every interpretation) are modelled, not verified.")
 CLAIMS = {
+ "C02": dict(
+   engine="tie-B-engine",
+   technique="Lean 4 proof that the parallel iteration under EVERY schedule computes the least model (= the serial result) + perturbed parallel runs of compiled programs",
+   text="Lean 4 theorems over the parallel engine model (all rule-variant tasks of an iteration evaluated against frozen total/delta, their head updates applied "
+        "in an arbitrary permutation = any interleaving of the workers' atomic steps, with or without inter-rule parallelism): for every relational program, "
+        "interpretation, input, valid SCC order, fuel and EVERY schedule the result is exactly the least model, rows are sets (runPar_eq_leastModel), hence equal "
+        "to the serial engine's result (par_eq_serial) and independent of the schedule (par_schedule_independent). Tied by ascent_par! twins of generated "
+        "relational / lattice / aggregation programs, with and without #![inter_rule_parallelism], in pools of 1..16 threads under seeded perturbation of every "
+        "concurrent index insert (hook), vs the serial model and the naive oracle. PARTIAL: lattices and aggregation in parallel mode are covered by the tie "
+        "only (finding F5); deadlock-freedom, DashMap/boxcar/RwLock/Mutex atomicity, rayon completion and memory ordering are assumptions, exercised not proved.",
+   design_ref="DESIGN.md §8 C02, §13", note=ENGINE_NOTE),
+ "C20": dict(
+   engine="tie-B-engine",
+   technique="Lean 4 invariants of the per-thread-sharded index across pool sizes + compiled programs across construction/run pools and concurrent instances",
+   text="Lean 4 theorems about where the rayon pool enters the code (CRelNoIndex: one shard per thread of the constructing pool, insert into shard "
+        "thread_index % shards, zip-merge): whatever pool sizes the three versions were constructed in, if every insert is made by a thread of the current pool "
+        "of m threads and `total` has at least m shards (it is constructed in the running pool), all content stays within the first m shards and the merge step "
+        "loses nothing and re-establishes the invariant (insert_within, moveContents_within, mergeStep_pool_independent); the engine model itself is a pure "
+        "function of one program value (instances share no model state). Tied by parallel programs constructed / run / re-run after pushes in pools (a,b,c) "
+        "from {1,2,3,8,16}^3 and by groups of instances of the same and of different generated types running at the same time on OS threads. PARTIAL: data "
+        "races on the `static mut` timing counters are UB that neither model nor run can exhibit; they are read by no evaluation step.",
+   design_ref="DESIGN.md §8 C20, §13", note=ENGINE_NOTE),
  "C06": dict(
    engine="tie-B-engine",
    technique="Lean 4 invariance theorems for the least model (permutations, renamings of relations / variables / constants, swaps of independent items) transferred to run() by C01 + metamorphic compiled-program correspondence",
